@@ -4,6 +4,9 @@ go 1.23
 
 toolchain go1.23.5
 
+// f1 declares go 1.22: run its code with the timer-channel semantics it is built with
+godebug asynctimerchan=1
+
 require (
 	github.com/form3tech-oss/f1/v2 v2.0.0
 	github.com/prometheus/client_golang v1.20.4
